@@ -140,6 +140,17 @@ def check(run):
         specs = place(rng, rng.randint(2, 5), 3 if k % 2 else 1, tol)
         t = random_transform(rng, sum(s.size for s in specs)) if k % 5 == 4 else None
         one_case(run, specs, tol, t)
+    # one-centre and two-centre bases with every pair of angular momenta 0..3 in both coordinate types (distance 0 is always within
+    # the cutoff: every block must be untouched, in particular the non-vanishing Cartesian blocks with l differing by 2)
+    for k, tol in enumerate([0.5, 1e-3, 1e-8, 1e-16] if quick else tols[1:]):
+        for sph in (False, True):
+            specs = [rand_shell(rng, l, [], nprim=rng.randint(1, 3), exp_lo=0.05, exp_hi=50.0, sph=sph).copy(center=[0.25, -0.5, 1.0])
+                     for l in (0, 2, 1, 3)]
+            if (k + sph) % 2:
+                far = rand_shell(rng, rng.randint(0, 3), [], exp_lo=1.0, exp_hi=50.0)
+                specs.append(far.copy(center=[0.25, -0.5, 1.0 + cutoff(specs[0], far, tol) * (1 + 2.0 ** -20)]))
+            one_case(run, specs, tol)
+            run.count("one-centre basis, all l pairs")
     for k in range(3 if quick else 20):
         specs = place(rng, 4, 2, 1e-6)
         monotone_case(run, specs, [0.5, 1e-2, 1e-4, 1e-8, 1e-16])
